@@ -336,6 +336,57 @@ func monC08(c *drv.Ctx) {
 		})
 	}
 
+	// (4d) the input lives in a local array on a goroutine stack that has to grow while Binary.Skip recurses
+	// (the runtime moves the array with the stack): the verdict must be the one for the same bytes on the heap
+	c.Stage("stack-resident-input", c.Pick(2400, 24000), false, func(cs *drv.Case) {
+		r := cs.R
+		pad := int(cs.Idx % 300)
+		depth := 20 + r.Intn(44) // 20..63
+		var b []byte
+		var t byte
+		if r.Intn(2) == 0 {
+			t = []byte{ref.STRUCT, ref.MAP, ref.SET, ref.LIST}[r.Intn(4)]
+			b = gen.Nested(t, depth, r.Intn(3))
+		} else {
+			b, t = gen.NestedPath(gen.NestPaths[r.Intn(len(gen.NestPaths))], depth, r.Intn(2) == 0)
+		}
+		if len(b) > 1024 {
+			return
+		}
+		switch r.Intn(4) {
+		case 0: // cut inside the closing part
+			b = b[:len(b)-1-r.Intn(minInt(len(b)-1, 40))]
+		case 1: // cut anywhere
+			b = b[:r.Intn(len(b))]
+		}
+		pr := ref.Parse(b, t)
+		cs.Desc = M{"type": t, "depth": depth, "pad_frames": pad, "input_hex": hexOf(b)}
+		o := stackSkip(b, t, pad)
+		det := func() M {
+			return M{"type": t, "input_hex": hexOf(b), "pad_frames": pad, "observed_n": o.n, "observed_err": errString(o.err), "on_stack": o.onStack,
+				"oracle": M{"ok": pr.OK, "n": pr.N, "causes": causeNames(pr.Causes), "max_nesting": pr.MaxNesting}}
+		}
+		if o.onStack {
+			cs.C.Obs("inputs on a goroutine stack", 1)
+		} else {
+			cs.C.Obs("inputs meant for the stack that were elsewhere", 1)
+		}
+		switch {
+		case o.panic != nil:
+			d := det()
+			d["panic"] = fmt.Sprint(o.panic)
+			cs.Fail("skip-panic", M{"skipper": "Binary.Skip", "placement": "stack"}, d)
+		case pr.TooDeep || pr.DontCare || pr.MaxNesting >= 64:
+		case pr.OK && o.err != nil:
+			cs.Fail("skip-rejected-wellformed", M{"skipper": "Binary.Skip", "placement": "stack"}, det())
+		case pr.OK && o.n != pr.N:
+			cs.Fail("skip-wrong-extent", M{"skipper": "Binary.Skip", "placement": "stack"}, det())
+		case !pr.OK && o.err == nil:
+			cs.Fail("skip-accepted-malformed", M{"skipper": "Binary.Skip", "placement": "stack", "causes": causeNames(pr.Causes)}, det())
+		}
+		cs.Count(true, "stack", t, pad, b)
+	})
+
 	// (5) every type byte as requested type on small inputs
 	c.Stage("type-bytes", 256, true, func(cs *drv.Case) {
 		t := byte(cs.Idx)
